@@ -605,6 +605,19 @@ def gen_descriptors(tier, rng):
     yield D("tensordot", [g.arr((3, 3)), g.arr((3, 1))], valid=False, modes=[[1], [0]], batched=[[0], [1]])
     yield D("tensordot", [g.arr((2, 1)), g.arr((3, 2))], valid=False, modes=[[1], [0]], batched=[[], []])
     yield D("tensordot", [g.arr((2, 3)), g.arr((1, 2))], valid=False, modes=[[1], [0]], batched=[[0], [1]])
+    # modes=k (int): every (order1, order2, k); with k >= 2 also equal common sizes, where a mis-paired contraction changes values only
+    for na in (1, 2, 3):
+        for nb_ in (1, 2, 3):
+            for k in range(0, min(na, nb_) + 1):
+                for equal in ((False, True) if k >= 2 else (False,)):
+                    sa = [rng.choice(dims) for _ in range(na)]
+                    if equal:
+                        sa[na - k:] = [2] * k
+                    elif k >= 2:
+                        sa[na - k:] = rng.sample(dims, k)   # distinct sizes: a mis-paired contraction is rejected
+                    sb = sa[na - k:] + [rng.choice(dims) for _ in range(nb_ - k)]
+                    yield D("tensordot", [g.arr(tuple(sa)), g.arr(tuple(sb))], modes=[list(range(na - k, na)), list(range(k))], batched=[[], []],
+                            raw_modes=k, raw_batched=())
     # the int / negative / flat argument forms of tenalg_utils._validate_contraction_modes (normalised lists go to model and reference)
     for _ in range(24 if quick else 120):
         na, nb_ = rng.randint(1, 3), rng.randint(1, 3)
